@@ -416,21 +416,41 @@ func (c *channel) processCommand(ctx context.Context, sender RequestCommandSende
 	c.processingCmdsMu.Unlock()
 	verifPoint("channel.process.registered")
 
+	// unregister removes this call's entry, but never the entry of a later call that reuses the id
+	unregister := func() {
+		c.processingCmdsMu.Lock()
+		if ch, ok := c.processingCmds[reqCmd.ID]; ok && ch == respChan {
+			delete(c.processingCmds, reqCmd.ID)
+		}
+		c.processingCmdsMu.Unlock()
+	}
+
 	defer func() {
 		verifPoint("channel.process.cleanup")
-		c.processingCmdsMu.Lock()
-		delete(c.processingCmds, reqCmd.ID)
-		c.processingCmdsMu.Unlock()
+		unregister()
 	}()
+
+	// giveUp ends the call with an error, unless a response was already submitted to it:
+	// after unregistering no response can be submitted anymore, and one that was submitted
+	// just before must not be lost.
+	giveUp := func(err error) (*ResponseCommand, error) {
+		unregister()
+		select {
+		case respCmd := <-respChan:
+			return respCmd, nil
+		default:
+			return nil, err
+		}
+	}
 
 	err := sender.SendRequestCommand(ctx, reqCmd)
 	if err != nil {
-		return nil, err
+		return giveUp(err)
 	}
 
 	select {
 	case <-ctx.Done():
-		return nil, fmt.Errorf("process command: %w", ctx.Err())
+		return giveUp(fmt.Errorf("process command: %w", ctx.Err()))
 	case respCmd := <-respChan:
 		return respCmd, nil
 	}
@@ -441,19 +461,18 @@ func (c *channel) trySubmitCommandResult(respCmd *ResponseCommand) bool {
 		return false
 	}
 
-	c.processingCmdsMu.RLock()
-	respChan, ok := c.processingCmds[respCmd.ID]
-	c.processingCmdsMu.RUnlock()
+	verifPoint("channel.submit.between")
 
+	// The lookup, the removal and the (never blocking, since the chan is buffered and the entry
+	// is removed at the same time) delivery are a single step for the callers' cleanup.
+	c.processingCmdsMu.Lock()
+	defer c.processingCmdsMu.Unlock()
+
+	respChan, ok := c.processingCmds[respCmd.ID]
 	if !ok {
 		return false
 	}
-	verifPoint("channel.submit.between")
-
-	c.processingCmdsMu.Lock()
 	delete(c.processingCmds, respCmd.ID)
-	c.processingCmdsMu.Unlock()
-
 	respChan <- respCmd
 	return true
 }
